@@ -8,6 +8,13 @@
 // For every statement `X.mx.Lock()` / `X.mx.RLock()` in the root package that is
 // not directly preceded by a verifhook.Yield call it inserts
 // `verifhook.Yield("auto.W:<func>#<n>", X)` (auto.R for RLock) before it.
+//
+// Every acquisition is followed by `verifhook.Skip("auto.lockedW", X)` (lockedR)
+// and every release by `verifhook.Skip("auto.unlocked", X)` (notifications, they
+// never park), for `defer X.mx.Unlock()` as a defer registered just before it. With both the driver knows at every moment which
+// goroutine holds the runner lock, so a goroutine that blocks for ever while
+// holding it is reported as a deadlock of the system instead of hanging the
+// simulator (DESIGN §12.2).
 package main
 
 import (
@@ -70,6 +77,31 @@ func lockCall(s ast.Stmt) (ast.Expr, string) {
 	return mx.X, kind
 }
 
+// unlockCall reports whether call is `recv.mx.Unlock()` or `recv.mx.RUnlock()`.
+func unlockCall(call *ast.CallExpr) bool {
+	if call == nil || len(call.Args) != 0 {
+		return false
+	}
+	sel, ok := call.Fun.(*ast.SelectorExpr)
+	if !ok || (sel.Sel.Name != "Unlock" && sel.Sel.Name != "RUnlock") {
+		return false
+	}
+	mx, ok := sel.X.(*ast.SelectorExpr)
+	return ok && mx.Sel.Name == "mx"
+}
+
+// unlockRecv returns X of `X.mx.Unlock()`.
+func unlockRecv(call *ast.CallExpr) ast.Expr {
+	return call.Fun.(*ast.SelectorExpr).X.(*ast.SelectorExpr).X
+}
+
+func note(what string, recv ast.Expr) *ast.CallExpr {
+	return &ast.CallExpr{
+		Fun:  &ast.SelectorExpr{X: ast.NewIdent("verifhook"), Sel: ast.NewIdent("Skip")},
+		Args: []ast.Expr{&ast.BasicLit{Kind: token.STRING, Value: strconv.Quote(what)}, recv},
+	}
+}
+
 func main() {
 	if len(os.Args) != 2 {
 		fmt.Fprintln(os.Stderr, "usage: instrument <dir>")
@@ -81,7 +113,7 @@ func main() {
 		fmt.Fprintln(os.Stderr, err)
 		os.Exit(2)
 	}
-	inserted := 0
+	inserted, notes := 0, 0
 	for _, e := range ents {
 		name := e.Name()
 		if e.IsDir() || !strings.HasSuffix(name, ".go") || strings.HasSuffix(name, "_test.go") || strings.HasSuffix(name, "_verif.go") {
@@ -128,7 +160,25 @@ func main() {
 							inserted++
 						}
 					}
+					if ds, ok := s.(*ast.DeferStmt); ok && unlockCall(ds.Call) {
+						// registered before, therefore run after the unlock
+						out = append(out, &ast.DeferStmt{Call: note("auto.unlocked", unlockRecv(ds.Call))})
+						changed = true
+						notes++
+					}
 					out = append(out, s)
+					if recv, kind := lockCall(s); recv != nil {
+						out = append(out, &ast.ExprStmt{X: note("auto.locked"+kind, recv)})
+						changed = true
+						notes++
+					}
+					if es, ok := s.(*ast.ExprStmt); ok {
+						if call, ok := es.X.(*ast.CallExpr); ok && unlockCall(call) {
+							out = append(out, &ast.ExprStmt{X: note("auto.unlocked", unlockRecv(call))})
+							changed = true
+							notes++
+						}
+					}
 				}
 				return out
 			}
@@ -162,5 +212,5 @@ func main() {
 			os.Exit(2)
 		}
 	}
-	fmt.Printf("instrument: %d hook points inserted\n", inserted)
+	fmt.Printf("instrument: %d hook points inserted, %d unlock notifications\n", inserted, notes)
 }
